@@ -17,6 +17,7 @@ import (
 	"github.com/free5gc/go-upf/internal/report"
 	"github.com/free5gc/go-upf/internal/verif/flowgen"
 	"github.com/free5gc/go-upf/internal/verif/fullstack"
+	"github.com/free5gc/go-upf/internal/verif/pipeline"
 	"github.com/free5gc/go-upf/internal/verif/simkernel"
 	"github.com/free5gc/go-upf/internal/verif/vcore"
 )
@@ -38,30 +39,30 @@ func TestMain(m *testing.M) {
 // ---------------------------------------------------------------- records
 
 type SDF struct {
-	FD   *flowgen.Rule `json:"fd,omitempty"`
-	BID  uint32        `json:"bid,omitempty"`
-	HasBID bool        `json:"has_bid,omitempty"`
+	FD     *flowgen.Rule `json:"fd,omitempty"`
+	BID    uint32        `json:"bid,omitempty"`
+	HasBID bool          `json:"has_bid,omitempty"`
 }
 
 type PDR struct {
-	Update  bool    `json:"update"`
-	SEID    uint64  `json:"seid"`
-	ID      uint16  `json:"id"`
-	Prec    *uint32 `json:"prec,omitempty"`
-	HasPDI  bool    `json:"has_pdi"`
-	SrcIf   uint8   `json:"src_if"`
-	FTEID   *FTEID  `json:"fteid,omitempty"`
+	Update  bool     `json:"update"`
+	SEID    uint64   `json:"seid"`
+	ID      uint16   `json:"id"`
+	Prec    *uint32  `json:"prec,omitempty"`
+	HasPDI  bool     `json:"has_pdi"`
+	SrcIf   uint8    `json:"src_if"`
+	FTEID   *FTEID   `json:"fteid,omitempty"`
 	UEIP    *[4]byte `json:"ueip,omitempty"`
-	UEFlags uint8   `json:"ue_flags,omitempty"`
-	SDFs    []SDF   `json:"sdfs,omitempty"`
-	NetInst string  `json:"net_inst,omitempty"`
-	AppID   string  `json:"app_id,omitempty"`
-	OHR     *uint8  `json:"ohr,omitempty"`
-	FAR     *uint32 `json:"far,omitempty"`
+	UEFlags uint8    `json:"ue_flags,omitempty"`
+	SDFs    []SDF    `json:"sdfs,omitempty"`
+	NetInst string   `json:"net_inst,omitempty"`
+	AppID   string   `json:"app_id,omitempty"`
+	OHR     *uint8   `json:"ohr,omitempty"`
+	FAR     *uint32  `json:"far,omitempty"`
 	QERs    []uint32 `json:"qers,omitempty"`
 	URRs    []uint32 `json:"urrs,omitempty"`
-	Order   []int   `json:"order"`     // permutation seed for the PDR's children
-	PDIOrd  []int   `json:"pdi_order"` // permutation seed for the PDI's children
+	Order   []int    `json:"order"`     // permutation seed for the PDR's children
+	PDIOrd  []int    `json:"pdi_order"` // permutation seed for the PDI's children
 }
 
 type FTEID struct {
@@ -942,6 +943,19 @@ func account(c Case, ident bool) {
 	}
 }
 
+// runPipeline follows Create PDR / Create FAR IEs through the PFCP receive path while other requests are in flight: what
+// the driver is handed must be the requesting session's own IE, octet for octet (package pipeline; model data plane).
+func runPipeline(t vcore.Failer, c pipeline.Case) {
+	v, st := pipeline.Run(c)
+	vcore.E.Eval()
+	vcore.E.Class("pipelined")
+	if st.Queued >= 2 {
+		vcore.E.Class("pipelined:>=2_datagrams_queued_behind_the_loop")
+		vcore.E.NonTrivial(vcore.JSON(c))
+	}
+	vcore.Report(t, v, map[string]any{"pipeline": c})
+}
+
 func TestC02(t *testing.T) {
 	defer func() {
 		if drv != nil {
@@ -950,10 +964,19 @@ func TestC02(t *testing.T) {
 	}()
 	files, explicit := vcore.ReplayFiles()
 	for _, f := range files {
-		var c Case
-		if err := vcore.LoadReplayCase(f, &c); err != nil {
+		var w struct {
+			Case
+			Pipeline *pipeline.Case `json:"pipeline"`
+		}
+		if err := vcore.LoadReplayCase(f, &w); err != nil {
 			t.Fatalf("replay %s: %v", f, err)
 		}
+		if w.Pipeline != nil {
+			vcore.E.Class("replayed")
+			runPipeline(t, *w.Pipeline)
+			continue
+		}
+		c := w.Case
 		v, ident := check(c)
 		account(c, ident)
 		vcore.E.Class("replayed")
@@ -962,6 +985,9 @@ func TestC02(t *testing.T) {
 	if explicit {
 		return
 	}
+	vcore.Check(t, vcore.N(100, 800), func(rt *rapid.T) {
+		runPipeline(rt, pipeline.Gen(rt))
+	})
 	vcore.Check(t, vcore.N(4000, 100000), func(rt *rapid.T) {
 		c := Case{PDR: genPDR(rt)}
 		v, ident := check(c)
